@@ -350,7 +350,11 @@ class Check(PropertyCheck):
         for r in obs["ops"]:
             if r["r"] == "ok": out.append(f"ok {r['qlen']} {r['ngen']}")
             elif r["r"] == "err": out.append(f"err {r['qlen']} {r['ngen']}")
-            else: out.append(f"{r['r']} {r['id']} {r['fresh']} {r['qlen']} {r['ngen']}")
+            else:
+                line = f"{r['r']} {r['id']} {r['fresh']} {r['qlen']} {r['ngen']}"
+                if r["r"] == "g":     # what the returned certificate really carries; the model predicts it
+                    line += f" {fld(r['cert_cn'])} {self._sans_field(r['cert_sans'])}"
+                out.append(line)
         return {"ops": out, "dump": obs["dump"], "queue": "q:" + lst([str(i) for i in obs["queue"]])}
 
     def classify(self, case, obs):
